@@ -1,5 +1,6 @@
 import Xp.Base.JsonIO
 import Xp.Model.C04
+import Xp.Model.C04Conn
 namespace Xp.C04
 open Lean (Json)
 open Xp.IOx
@@ -115,7 +116,41 @@ def observe (refs : List (String × String)) (objs : List O) : Option (List Res)
       else if o.annot == "" then none
       else some ((acc.filter (·.rname != o.annot)) ++ [⟨o.annot, o.kind, o.name, o.content, false⟩])
 
+open Xp.C04Conn in
+def connHandler : Handler := fun scn => do
+  let mut conns : Conns := []
+  let mut revs : List Rev := []
+  let mut fns : List String := []
+  let mut steps : Array Json := #[]
+  let mut ok := true
+  for op in arr scn "ops" do
+    let mut target := ""
+    let mut err := false
+    let mut closed := 0
+    match str op "op" with
+    | "set" =>
+      fns := strs op "fns"
+      -- the API server lists revisions sorted by name
+      revs := ((arr op "revs").map fun j => (⟨str j "name", str j "fn", bool j "active", str j "endpoint"⟩ : Rev)).mergeSort
+        (fun a b => a.name ≤ b.name)
+    | "run" =>
+      let (t, c') := getConn revs conns (str op "name")
+      conns := c'
+      target := t.getD ""
+      err := t.isNone
+      -- model-side monitor: the target is the endpoint of an active revision of that function
+      if let some ep := t then
+        if !(revs.any fun r => r.fn == str op "name" && r.active && r.endpoint == ep) then ok := false
+    | _ =>
+      let (n, c') := gc fns conns
+      closed := n
+      conns := c'
+    steps := steps.push <| Json.mkObj [("target", .str target), ("err", .bool err), ("closed", .num closed),
+      ("conns", Json.arr ((conns.mergeSort fun a b => a.1 ≤ b.1).map fun p => Json.arr #[.str p.1, .str p.2]).toArray)]
+  return (Json.mkObj [("steps", Json.arr steps)], ok, if ok then "" else "C04:sent-to-non-active-endpoint")
+
 def handler : Handler := fun scn => do
+  if bool scn "conn" then return ← connHandler scn
   let refs := (arr scn "refs").map fun j => (str j "kind", str j "name")
   let objs := (arr scn "objs").map fun j => (⟨str j "kind", str j "name", str j "annot", str j "ctrl", nat j "content"⟩ : O)
   let cluster := (arr scn "cluster").map fun j => (⟨str j "kind", str j "name", kvsOf j "labels"⟩ : ClusterObj)
